@@ -31,7 +31,9 @@ EXPLANATION = (
     ' '
     'R-C13.8 the hint text reaches stdout / the evolution file with nothing but whitespace trimming applied.'
     ' '
-    'R-C13.10 change_meta_indexes looks the per-index dictionaries up under an order-insensitive key (R-C13.9, sibling key order of the two producers, was withdrawn once fix d79d704 made the order irrelevant).')
+    'R-C13.10 change_meta_indexes looks the per-index dictionaries up under an order-insensitive key (R-C13.9, sibling key order of the two producers, was withdrawn once fix d79d704 made the order irrelevant).'
+    ' '
+    'R-C13.11 TupleSerialization writes the trailing comma only on a path controlled by len(value) == 1.')
 NOT_DECIDED = (
     'Semantic equality of the re-loaded mutations (same signature change, '
     'same SQL) for all values; validity of the rendered Python for every '
@@ -909,7 +911,42 @@ def r10_index_dicts_compared_order_insensitively(ctx, rule_id='R-C13.10'):
                'order-insensitive key')
 
 
+def r11_tuple_comma_only_for_one_element(ctx):
+    """Python writes a one-element tuple with a trailing comma and the empty
+    tuple without one: `(x,)`, `()`.  In TupleSerialization the comma may be
+    produced only on a path controlled by `len(value) == 1`; `(,)` is a
+    SyntaxError and the hint does not load."""
+    ctx.rule('R-C13.11')
+    p = ctx.program
+    f = p.cls(SER, 'TupleSerialization').methods['serialize_to_python']
+    g = ctx.cfg(f)
+    n = 0
+    for node in g.nodes:
+        for x in node.walk():
+            if isinstance(x, ast.Constant) and isinstance(x.value, str) and \
+                    (x.value == ',' or ',)' in x.value):
+                n += 1
+                one = [t for t in g.nodes if t.kind in ('test', 'operand')
+                       and isinstance(t.ast, ast.Compare) and
+                       'len(' in unparse(t.ast) and
+                       isinstance(t.ast.ops[0], ast.Eq) and
+                       unparse(t.ast.comparators[0]) == '1' and
+                       g.guarded_by(node, t, 'T')]
+                if one:
+                    ctx.ok(f, 'trailing comma only for one-element tuples',
+                           x)
+                else:
+                    ctx.finding(f, x, 'TupleSerialization writes the '
+                                'trailing comma (%r) on a path that is not '
+                                'restricted to one-element tuples: the empty '
+                                'tuple is rendered as "(,)", which does not '
+                                'parse' % x.value,
+                                key='tuple-comma-not-only-for-one')
+    ctx.floor('trailing-comma literals in TupleSerialization', n, 1)
+
+
 def run(ctx):
+    r11_tuple_comma_only_for_one_element(ctx)
     r10_index_dicts_compared_order_insensitively(ctx)
     r8_hint_text_reaches_output_verbatim(ctx)
     r1_import_closure(ctx)
